@@ -8,6 +8,10 @@ open Proto Safe
 def dstP : Path := 0
 def tmpP : Path := 1
 def dirFlag : Nat := 2147483648
+/-- the destination path is a symbolic link to a file / to nothing (the model sees what a reader of the path sees;
+    `rename` replaces the link itself, so the marker disappears with the first successful commit) -/
+def linkFlag : Nat := 4294967296
+def dangFlag : Nat := 8589934592
 
 def genBytes (off n seed : Nat) : Bytes := (List.range n).map (fun i => ((off + i) * 31 + seed) % 251)
 
@@ -29,7 +33,11 @@ def parseOct? (s : String) : Option Nat :=
 
 def showState : Option FileData → String
   | none => "absent"
-  | some d => if d.mode ≥ dirFlag then "dir" else s!"{d.content.length}:{natToHex (fnv d.content).toNat}:{toOct d.mode}"
+  | some d =>
+    if d.mode ≥ dangFlag then "absent@"
+    else if d.mode ≥ linkFlag then s!"{d.content.length}:{natToHex (fnv d.content).toNat}:{toOct (d.mode - linkFlag)}@"
+    else if d.mode ≥ dirFlag then "dir"
+    else s!"{d.content.length}:{natToHex (fnv d.content).toNat}:{toOct d.mode}"
 
 /-- "-" | sizes separated by ",", "AxB" = B pieces of size A -/
 def parsePieces? (s : String) : Option (List Nat) :=
@@ -50,9 +58,13 @@ def mkPieces (sizes : List Nat) : List Bytes :=
 def parseOld? (s : String) : Option (Option FileData) :=
   if s = "absent" then some none
   else if s = "dir" then some (some ⟨[], dirFlag⟩)
+  else if s = "dangling" then some (some ⟨[], dangFlag⟩)
   else match s.splitOn ":" with
     | ["file", n, m] => match n.toNat?, parseOct? m with
       | some n, some m => some (some ⟨genBytes 0 n 7, m⟩)
+      | _, _ => none
+    | ["link", n, m] => match n.toNat?, parseOct? m with
+      | some n, some m => some (some ⟨genBytes 0 n 7, m + linkFlag⟩)
       | _, _ => none
     | _ => none
 
@@ -218,7 +230,7 @@ def step (st : St) (line : String) : St × String :=
     | some f, some o =>
       -- environment: renaming a file onto a directory fails
       let dstIsDir := match st.fs dstP with
-        | some d => decide (d.mode ≥ dirFlag)
+        | some d => decide (d.mode ≥ dirFlag ∧ d.mode < linkFlag)
         | none => false
       let r := f.step (match o with
         | .commit a _ => .commit a dstIsDir
